@@ -464,6 +464,27 @@ def check_level0_closure(ctx):
                     what="a file is left out iff it ends before the range or starts after it")
 
 
+def check_pick_level0_closure(ctx):
+    """Every automatically picked level-0 compaction (size- or seek-triggered)
+    takes the transitive closure of overlapping level-0 files before its
+    inputs are fixed; otherwise a newer level-0 file moves below an older one
+    that overlaps it."""
+    f = ctx.fn("ldb_versions_pick_compaction", VS)
+    must_pass_before_success(ctx, "T2-level0-closure", "pick_compaction", f, None,
+                             lambda e: is_call(e, "ldb_version_get_overlapping_inputs") and const_val(e["a"][1]) == 0
+                             and argkey(e, 4) == "&c->inputs[0]",
+                             "a picked level-0 compaction collects all overlapping level-0 files",
+                             success=lambda e, st: e.get("x") is not None and const_val(e["x"]) is None,
+                             edge_pass=lambda lit: rel_edge(lit[0], lit[1], "!=", "level", 0))
+    always_b = [(b, i, e) for (b, i, e) in f.events("call") if is_call(e, "ldb_versions_setup_other_inputs")]
+    ctx.require(len(always_b) == 1, "pick_compaction: setup_other_inputs call not found")
+    from ..rules import never_after
+    never_after(ctx, "T2-level0-closure", "pick_compaction:closure-before-expansion", f,
+                lambda e: is_call(e, "ldb_versions_setup_other_inputs"),
+                lambda e: is_call(e, "ldb_version_get_overlapping_inputs"),
+                "the level-0 closure is taken before the other inputs are set up")
+
+
 def _cmp_sign(c, p, a, b):
     """branch edge on `compare(uc, &a, &b) <op> 0` -> the relation it establishes between a and b"""
     from ..paths import norm_literal
@@ -597,6 +618,7 @@ def check_table_get(ctx):
 
 
 def check(ctx):
+    check_pick_level0_closure(ctx)
     check_get(ctx)
     check_version_get(ctx)
     check_comparator(ctx)
